@@ -68,7 +68,7 @@ def fk(v, s=S):
     return (int(round(v * s)) if np.isfinite(v) else 0), (not np.isfinite(v))
 
 
-def catalog(sc, use_err=True, use_bkg=True, detcat=None, order=None, relabel=None):
+def catalog(sc, use_err=True, use_bkg=True, detcat=None, order=None, relabel=None, lbw=0):
     from photutils.segmentation import SegmentationImage, SourceCatalog
     d, cv, m = arrays(sc)
     seg = sc['segm'].copy()
@@ -76,7 +76,7 @@ def catalog(sc, use_err=True, use_bkg=True, detcat=None, order=None, relabel=Non
         seg = np.vectorize(lambda x: relabel.get(int(x), 0))(seg)
     segm = SegmentationImage(seg.astype(np.int32))
     cat = SourceCatalog(d, segm, convolved_data=cv, error=sc['err'].astype(float) if use_err else None, mask=m,
-                        background=sc['bkg'].astype(float) if use_bkg else None, detection_cat=detcat)
+                        background=sc['bkg'].astype(float) if use_bkg else None, detection_cat=detcat, localbkg_width=lbw)
     if order is not None:
         cat = cat[order]
     return cat
@@ -111,6 +111,10 @@ def rows_of(cat, has_err, has_bkg):
         vals = [mm[0, 0], mm[0, 1], mm[1, 0], mm[1, 1], mm[0, 2], mm[2, 0]]
         r['moments'] = [int(round(float(v))) if np.isfinite(v) else -999999 for v in vals]
         r['xcen_k'], r['cen_nan'] = fk(g('xcentroid')[k]); r['ycen_k'], _ = fk(g('ycentroid')[k])
+        lb = float(np.asarray(getattr(g('local_background')[k], 'value', g('local_background')[k])))
+        r['localbkg_k'] = int(round(lb * S)) if np.isfinite(lb) else 0
+        cv = [fk(g(nm)[k], 256) for nm in ('covar_sigx2', 'covar_sigxy', 'covar_sigy2')]
+        r['cov'] = [c_[0] for c_ in cv]; r['cov_nan'] = any(c_[1] for c_ in cv)
         rows.append(r)
     return rows
 
@@ -129,9 +133,10 @@ def rec_scene(seed):
     rng = random.Random(seed)
     sc = make_scene(rng)
     has_err, has_bkg = rng.random() < 0.8, rng.random() < 0.8
+    lbw = rng.choice([0, 0, 2, 3])
     with warnings.catch_warnings():
         warnings.simplefilter('ignore')
-        cat = catalog(sc, has_err, has_bkg)
+        cat = catalog(sc, has_err, has_bkg, lbw=lbw)
         rows = rows_of(cat, has_err, has_bkg)
         base = {'id': seed, 'kind': 'rows', 'segm': sc['segm'].tolist(), 'data': sc['data'].tolist(), 'conv': sc['conv'].tolist(), 'err': sc['err'].tolist(),
                 'bkg': sc['bkg'].tolist(), 'mask': sc['mask'], 'nonfinite': sc['nonfinite'], 'conv_nonfinite': sc['conv_nonfinite'],
@@ -148,28 +153,29 @@ def rec_scene(seed):
         for r, c in sc['mask']:
             d2[r, c] = 999; c2[r, c] = 888
         sc2['data'], sc2['conv'] = d2, c2
-        pair('rows_depend_only_on_own_footprint', canon_rows(rows_of(catalog(sc2, has_err, has_bkg), has_err, has_bkg)), canon_rows(rows))
+        if lbw == 0:
+            pair('rows_depend_only_on_own_footprint', canon_rows(rows_of(catalog(sc2, has_err, has_bkg), has_err, has_bkg)), canon_rows(rows))
         # renumber labels (order preserving and not)
         perm = labs[:]; rng.shuffle(perm)
         rl = {a: b + 20 for a, b in zip(labs, perm)}
         inv = {v: k for k, v in rl.items()}
-        pair('label_renumbering_changes_nothing_else', canon_rows(rows_of(catalog(sc, has_err, has_bkg, relabel=rl), has_err, has_bkg), bylabel=inv), canon_rows(rows))
+        pair('label_renumbering_changes_nothing_else', canon_rows(rows_of(catalog(sc, has_err, has_bkg, relabel=rl, lbw=lbw), has_err, has_bkg), bylabel=inv), canon_rows(rows))
         # reorder rows
         if len(labs) > 1:
             order = list(range(len(labs))); rng.shuffle(order)
-            pair('row_reordering_changes_nothing_else', canon_rows(rows_of(catalog(sc, has_err, has_bkg, order=order), has_err, has_bkg)), canon_rows(rows))
+            pair('row_reordering_changes_nothing_else', canon_rows(rows_of(catalog(sc, has_err, has_bkg, order=order, lbw=lbw), has_err, has_bkg)), canon_rows(rows))
         # read order: fluxes first vs moments first (a fresh catalog each)
-        c_a = catalog(sc, has_err, has_bkg); _ = c_a.segment_flux, c_a.area, c_a.min_value
-        c_b = catalog(sc, has_err, has_bkg); _ = c_b.moments, c_b.centroid
+        c_a = catalog(sc, has_err, has_bkg, lbw=lbw); _ = c_a.segment_flux, c_a.area, c_a.min_value
+        c_b = catalog(sc, has_err, has_bkg, lbw=lbw); _ = c_b.moments, c_b.centroid
         pair('independent_of_property_read_order', canon_rows(rows_of(c_a, has_err, has_bkg)), canon_rows(rows_of(c_b, has_err, has_bkg)))
         # detection catalog: moment-based properties come from the detection image, fluxes from the measurement image
         sc3 = dict(sc); sc3['data'] = sc['data'] + 1; sc3['conv'] = sc['conv'] * 2 + 1
-        det = catalog(sc3, has_err, has_bkg)
-        cat_d = catalog(sc, has_err, has_bkg, detcat=det)
+        det = catalog(sc3, has_err, has_bkg, lbw=lbw)
+        cat_d = catalog(sc, has_err, has_bkg, detcat=det, lbw=lbw)
         rd = rows_of(cat_d, has_err, has_bkg); rdet = rows_of(det, has_err, has_bkg)
         pick = lambda rs, keys: [json.dumps({k: r[k] for k in keys}, sort_keys=True) for r in rs]  # noqa
         pair('detection_catalog_supplies_shape_and_position', pick(rd, ['label', 'moments', 'xcen_k', 'ycen_k', 'bbox', 'segment_area']), pick(rdet, ['label', 'moments', 'xcen_k', 'ycen_k', 'bbox', 'segment_area']))
-        pair('measurement_image_supplies_fluxes', pick(rd, ['label', 'flux_k', 'flux_nan', 'min_k', 'max_k']), pick(rows, ['label', 'flux_k', 'flux_nan', 'min_k', 'max_k']))
+        pair('measurement_image_supplies_fluxes', pick(rd, ['label', 'flux_nan', 'min_k', 'max_k'] + (['flux_k'] if lbw == 0 else [])), pick(rows, ['label', 'flux_nan', 'min_k', 'max_k'] + (['flux_k'] if lbw == 0 else [])))
     return out
 
 
